@@ -8,15 +8,30 @@
 // until every freshly started handler has reached that pause, then observes through the shim which
 // handler goroutines exist (done channel created and not closed).
 //
+// The verdict is taken on BEHAVIOUR only: which handler objects the manager holds, which run
+// goroutines are alive (every done channel ever observed is remembered, so a goroutine orphaned by a
+// second start() of the same handler still counts as running) and which URL each forwarder dials
+// (its own "forwarding to" log event). What "available", "configured", "unchanged", "changed",
+// "removed", "added" mean comes from the reference model (the operations applied so far), never
+// from the manager's private bookkeeping: the shim locates private fields by type through
+// reflection, so renaming or dropping e.g. Manager.started does not break the check, and the
+// optional private facts (bool flags, remembered stream) only refine the state key.
+//
 // Alphabet: Init(L) as first operation; then Toggle (Start(stream) when the stream is unavailable,
 // Stop when it is available: the alternation internal/core/path.go guarantees) and ReloadConf(L),
 // L over every list of <= maxLen destinations (repetitions allowed) from the destination alphabet.
 //
-// Canonical state key: (started, ever started, per list position: destination, phase) with phase in
-// {never started, running, stopped}. Two states with the same key have the same futures because
-// Manager/DestHandler control flow reads nothing else: ReloadConf reads destHandlers[i].Conf,
-// m.started, m.stream; start() overwrites ctx/done; stop() reads ctxCancel/done (set by the last
-// start); uuid, created, lastError, state and byte counters never influence control flow.
+// The destination alphabet contains URLs with $MTX_PATH, with $G1 and without variables (the manager
+// is built like internal/core/path.go builds it for a regular-expression path: PathName "cam7",
+// Matches ["cam7","7"]), and variants that differ only in fingerprint / bearer token.
+//
+// Canonical state key: (model: stream available, ever available; implementation: every private bool
+// of the manager and the nil-ness of every private pointer, found by reflection; per list position:
+// destination, phase) with phase in {never started, running, stopped}. Two states with the same key
+// have the same futures because Manager/DestHandler control flow reads nothing else: ReloadConf
+// reads destHandlers[i].Conf, m.started, m.stream; start() overwrites ctx/done; stop() reads
+// ctxCancel/done (set by the last start); uuid, created, lastError, state and byte counters never
+// influence control flow.
 package main
 
 import (
@@ -43,10 +58,23 @@ import (
 // alphabet
 
 var (
-	dests     []conf.ForwardDest
+	dests     []conf.ForwardDest // as configured (raw, with variables)
+	destsRes  []conf.ForwardDest // the same with the variables of Dest resolved
 	destNames []string
 	lists     [][]int
 )
+
+// the path the manager belongs to, as internal/core/path.go would describe a path matched by the
+// regular expression ~^cam(\d+)$
+const pathName = "cam7"
+
+var pathMatches = []string{"cam7", "7"}
+
+// resolveModel is the reference resolution of the documented variables of a forward URL.
+func resolveModel(u string) string {
+	u = strings.ReplaceAll(u, "$G1", pathMatches[1])
+	return strings.ReplaceAll(u, "$MTX_PATH", pathName)
+}
 
 const (
 	opInit = iota
@@ -112,18 +140,38 @@ func buildAlphabet(nDests, maxLen int) {
 		name string
 		d    conf.ForwardDest
 	}{
+		// URL with $MTX_PATH
 		{"d1", conf.ForwardDest{Dest: fmt.Sprintf("rtmp://127.0.0.1:%d/app/$MTX_PATH", ports[0])}},
-		{"d2", conf.ForwardDest{Dest: fmt.Sprintf("rtsp://127.0.0.1:%d/$MTX_PATH", ports[1])}},
-		{"d3", conf.ForwardDest{Dest: fmt.Sprintf("whip://127.0.0.1:%d/$MTX_PATH/whip", ports[2]), WHIPBearerToken: "tok"}},
+		// URL with a regular-expression group
+		{"d2", conf.ForwardDest{Dest: fmt.Sprintf("rtsp://127.0.0.1:%d/$G1/main", ports[1])}},
+		// URL without variables
+		{"d3", conf.ForwardDest{Dest: fmt.Sprintf("whip://127.0.0.1:%d/fixed/whip", ports[2]), WHIPBearerToken: "tok"}},
 		// same URL as d1, other fingerprint: a CHANGED destination
 		{"d1f", conf.ForwardDest{Dest: fmt.Sprintf("rtmp://127.0.0.1:%d/app/$MTX_PATH", ports[0]), DestFingerprint: "aa"}},
 		// same URL as d3, other bearer token
-		{"d3t", conf.ForwardDest{Dest: fmt.Sprintf("whip://127.0.0.1:%d/$MTX_PATH/whip", ports[2]), WHIPBearerToken: "other"}},
-		{"d2f", conf.ForwardDest{Dest: fmt.Sprintf("rtsp://127.0.0.1:%d/$MTX_PATH", ports[1]), DestFingerprint: "bb"}},
+		{"d3t", conf.ForwardDest{Dest: fmt.Sprintf("whip://127.0.0.1:%d/fixed/whip", ports[2]), WHIPBearerToken: "other"}},
+		{"d2f", conf.ForwardDest{Dest: fmt.Sprintf("rtsp://127.0.0.1:%d/$G1/main", ports[1]), DestFingerprint: "bb"}},
 	}
 	for i := 0; i < nDests; i++ {
 		dests = append(dests, all[i].d)
+		r := all[i].d
+		r.Dest = resolveModel(r.Dest)
+		destsRes = append(destsRes, r)
 		destNames = append(destNames, all[i].name)
+	}
+	hasPath, hasGroup, hasPlain := false, false, false
+	for _, d := range dests {
+		switch {
+		case strings.Contains(d.Dest, "$MTX_PATH"):
+			hasPath = true
+		case strings.Contains(d.Dest, "$G1"):
+			hasGroup = true
+		default:
+			hasPlain = true
+		}
+	}
+	if !hasPath || !hasGroup || !hasPlain {
+		vcommon.Harness("destination alphabet %v lacks a URL with $MTX_PATH, with $G1 or without variables (use -dests >= 3)", destNames)
 	}
 	lists = [][]int{{}}
 	prev := [][]int{{}}
@@ -147,13 +195,27 @@ func toForward(l []int) conf.Forward {
 	return f
 }
 
-func destIndex(c conf.ForwardDest) int {
-	for i, d := range dests {
-		if d == c {
-			return i
+// confIs tells whether a handler's public Conf describes destination d of the alphabet. Whether the
+// handler keeps the URL as configured or with its variables resolved is not part of the statement
+// (don't-care); everything else must be equal.
+func confIs(c conf.ForwardDest, d int) bool {
+	return c == dests[d] || c == destsRes[d]
+}
+
+// destLabel names the destination a handler's Conf describes ("~" appended when it holds the
+// resolved form of a URL with variables, "?" when it is none of the alphabet).
+func destLabel(c conf.ForwardDest) string {
+	for i := range dests {
+		if c == dests[i] {
+			return destNames[i]
 		}
 	}
-	return -1
+	for i := range dests {
+		if c == destsRes[i] {
+			return destNames[i] + "~"
+		}
+	}
+	return "?"
 }
 
 // ---------------------------------------------------------------------------------------------
@@ -162,17 +224,21 @@ func destIndex(c conf.ForwardDest) int {
 type evlog struct {
 	mu     sync.Mutex
 	cond   *sync.Cond
-	errors map[string]int // handler id (hex of first 4 uuid bytes) -> error lines logged
-	lines  map[string]int // handler id -> any line
+	errors map[string]int    // handler id (hex of first 4 uuid bytes) -> error lines logged
+	lines  map[string]int    // handler id -> any line
+	fwd    map[string]string // handler id -> URL of its latest "forwarding to" event
 }
 
 func newEvlog() *evlog {
-	l := &evlog{errors: map[string]int{}, lines: map[string]int{}}
+	l := &evlog{errors: map[string]int{}, lines: map[string]int{}, fwd: map[string]string{}}
 	l.cond = sync.NewCond(&l.mu)
 	return l
 }
 
-const handlerPrefix = "[%s dest %d %s] "
+const (
+	handlerPrefix = "[%s dest %d %s] "
+	fwdSuffix     = "forwarding to '%s'"
+)
 
 func (l *evlog) Log(level logger.Level, format string, args ...any) {
 	if !strings.HasPrefix(format, handlerPrefix) || len(args) < 3 {
@@ -186,6 +252,11 @@ func (l *evlog) Log(level logger.Level, format string, args ...any) {
 	l.lines[id]++
 	if level == logger.Error {
 		l.errors[id]++
+	}
+	if strings.HasSuffix(format, fwdSuffix) && len(args) == 4 {
+		if u, ok2 := args[3].(string); ok2 {
+			l.fwd[id] = u
+		}
 	}
 	l.mu.Unlock()
 	l.cond.Broadcast()
@@ -210,6 +281,13 @@ func (l *evlog) waitErrors(id string, n int, deadline time.Time) bool {
 		l.cond.Wait()
 	}
 	return true
+}
+
+// forwardingTo returns the URL handler id last announced to dial ("" if it never did).
+func (l *evlog) forwardingTo(id string) string {
+	l.mu.Lock()
+	defer l.mu.Unlock()
+	return l.fwd[id]
 }
 
 func (l *evlog) ids() []string {
@@ -239,7 +317,7 @@ type hobs struct {
 }
 
 func probe(h *forward.DestHandler) hobs {
-	p := forward.VerifC39ProbeHandler(h)
+	p, _ := forward.VerifC39ProbeHandler(h) // presence of the channel is checked once in main
 	o := hobs{h: h, done: p.Done}
 	switch {
 	case p.Done == nil:
@@ -268,14 +346,20 @@ type exec struct {
 	// reference model, from the statement
 	conf      []int
 	available bool
+	everAvail bool
 	curStream *stream.Stream
 
-	seen     map[*forward.DestHandler]bool
-	all      []*forward.DestHandler
-	cur      []hobs // observation after the previous operation
-	viols    []viol
-	tclass   string // class of the last transition
-	harnessE string
+	seen map[*forward.DestHandler]bool
+	all  []*forward.DestHandler
+	// every run-goroutine generation (done channel) ever observed, per handler: a goroutine whose
+	// channel was overwritten by a second start() is still a running forwarder
+	gens      map[*forward.DestHandler][]<-chan struct{}
+	cur       []hobs // observation after the previous operation
+	viols     []viol
+	tclass    string   // class of the last transition
+	mclass    []string // model classification of the positions of the last reload ("K:d1", ...) while available
+	urlChecks int
+	harnessE  string
 }
 
 func hid(h *forward.DestHandler) string {
@@ -312,6 +396,63 @@ func (e *exec) fail(key, format string, a ...any) {
 	e.viols = append(e.viols, viol{key, fmt.Sprintf(format, a...)})
 }
 
+// liveGoroutines counts the run goroutines of h that are alive (over every generation observed).
+func (e *exec) liveGoroutines(h *forward.DestHandler) int {
+	n := 0
+	for _, c := range e.gens[h] {
+		select {
+		case <-c:
+		default:
+			n++
+		}
+	}
+	return n
+}
+
+// Model classification of one list position of a reload, from the configured lists only.
+const (
+	clKept    = 'K' // same index, equal configuration
+	clChanged = 'C' // same index, other configuration, old destination gone from the list
+	clShifted = 'S' // same index, other configuration, old destination still somewhere in the new list
+	clRemoved = 'R' // index beyond the new list
+	clAdded   = 'A' // index beyond the old list
+)
+
+// classify is the reference model of ReloadConf: what the statement says about every position,
+// computed from the list configured before and the list configured after. Nothing of the
+// implementation enters here.
+func classify(before, after []int) []byte {
+	n := max(len(before), len(after))
+	pat := make([]byte, n)
+	for i := 0; i < n; i++ {
+		switch {
+		case i < len(before) && i < len(after) && before[i] == after[i]:
+			pat[i] = clKept
+		case i < len(before) && i < len(after):
+			pat[i] = clChanged
+			for _, d := range after {
+				if d == before[i] {
+					pat[i] = clShifted
+				}
+			}
+		case i < len(before):
+			pat[i] = clRemoved
+		default:
+			pat[i] = clAdded
+		}
+	}
+	return pat
+}
+
+func inListModel(l []int, d int) bool {
+	for _, x := range l {
+		if x == d {
+			return true
+		}
+	}
+	return false
+}
+
 // apply runs one operation on the real object and on the reference model, waits for quiescence and
 // evaluates the transition oracle and the state invariant.
 func (e *exec) apply(o op) {
@@ -330,7 +471,8 @@ func (e *exec) apply(o op) {
 			ReadTimeout:       conf.Duration(10 * time.Second),
 			WriteTimeout:      conf.Duration(10 * time.Second),
 			UDPMaxPayloadSize: 1472,
-			PathName:          "mypath",
+			PathName:          pathName,
+			Matches:           append([]string(nil), pathMatches...),
 			Forward:           toForward(lists[o.List]),
 			Parent:            e.log,
 		}
@@ -342,6 +484,7 @@ func (e *exec) apply(o op) {
 			e.nStarts++
 			e.m.Start(s)
 			e.available = true
+			e.everAvail = true
 			e.curStream = s
 		} else {
 			e.m.Stop()
@@ -353,7 +496,7 @@ func (e *exec) apply(o op) {
 	}
 
 	// observe
-	hs := forward.VerifC39Handlers(e.m)
+	hs, _ := forward.VerifC39Handlers(e.m) // presence of the list is checked once in main
 	for _, h := range hs {
 		if !e.seen[h] {
 			e.seen[h] = true
@@ -369,6 +512,17 @@ func (e *exec) apply(o op) {
 	deadline := time.Now().Add(30 * time.Second)
 	for _, h := range e.all {
 		p := probe(h)
+		if p.done != nil {
+			known := false
+			for _, c := range e.gens[h] {
+				if c == p.done {
+					known = true
+				}
+			}
+			if !known {
+				e.gens[h] = append(e.gens[h], p.done)
+			}
+		}
 		if p.phase == phRunning && prevDone[h] != p.done {
 			if !e.log.waitErrors(hid(h), before[hid(h)], deadline) {
 				e.harnessE = fmt.Sprintf("handler %s (%s) did not report a connection error within 30 s "+
@@ -384,19 +538,27 @@ func (e *exec) apply(o op) {
 	}
 	e.cur = cur
 
-	started, mstream := forward.VerifC39ManagerState(e.m)
-
 	// ---- state invariant ----
 	// (a) one handler per configured destination, in configuration order
 	if len(cur) != len(e.conf) {
 		e.fail("list-length", "%d handlers for %d configured destinations", len(cur), len(e.conf))
 	} else {
 		for i, c := range cur {
-			if c.h.Conf != dests[e.conf[i]] {
+			if !confIs(c.h.Conf, e.conf[i]) {
 				e.fail("list-order", "handler %d has destination %+v, configuration says %s", i, c.h.Conf, destNames[e.conf[i]])
 			}
 			if c.h.Pos != i+1 {
 				e.fail("list-pos", "handler at index %d reports position %d", i, c.h.Pos)
+			}
+			// the forwarder of position i dials the URL configured at position i (variables resolved);
+			// skipped when the implementation does not announce what it dials
+			if c.phase == phRunning {
+				if u := e.log.forwardingTo(hid(c.h)); u != "" {
+					e.urlChecks++
+					if want := destsRes[e.conf[i]].Dest; u != want {
+						e.fail("wrong-destination", "forwarder %d dials %q, configured destination %s resolves to %q", i, u, destNames[e.conf[i]], want)
+					}
+				}
 			}
 		}
 	}
@@ -432,26 +594,30 @@ func (e *exec) apply(o op) {
 					i, c.h.Conf.Dest, c.phase)
 			}
 		}
-		if !started {
-			e.fail("manager-not-started", "stream available but manager.started is false")
-		} else if mstream != e.curStream {
-			e.fail("stale-stream", "manager holds a stream that is not the available one: forwarders started by a reload would read a dead stream")
+		// optional (only if the manager remembers a stream at all): it must be the available one,
+		// forwarders started by a later reload are handed that pointer
+		if ms, ok := forward.VerifC39ManagerStream(e.m); ok && ms != e.curStream {
+			e.fail("stale-stream", "manager remembers a stream that is not the available one: forwarders started by a reload would read a dead stream")
 		}
 	}
-	// (c) nothing else runs: handlers not in the list never run; nothing runs while unavailable
+	// (c) nothing else runs: handlers not in the list never run; nothing runs while unavailable;
+	// never two run goroutines for one handler
 	inList := map[*forward.DestHandler]bool{}
 	for _, c := range cur {
 		inList[c.h] = true
 	}
 	for _, h := range e.all {
-		p := probe(h)
-		if p.phase != phRunning {
+		n := e.liveGoroutines(h)
+		if n == 0 {
 			continue
 		}
 		if !e.available {
 			e.fail("running-while-unavailable", "stream unavailable but forwarder %s (%s) is running", hid(h), h.Conf.Dest)
 		} else if !inList[h] {
 			e.fail("orphan-running", "forwarder %s (%s) is no longer configured but still runs", hid(h), h.Conf.Dest)
+		}
+		if n > 1 {
+			e.fail("duplicate-forwarder", "forwarder %s (%s) has %d run goroutines alive (started again without being stopped)", hid(h), h.Conf.Dest, n)
 		}
 	}
 	known := map[string]bool{}
@@ -465,6 +631,7 @@ func (e *exec) apply(o op) {
 	}
 
 	// ---- transition oracle ----
+	e.mclass = nil
 	switch o.Kind {
 	case opInit:
 		e.tclass = fmt.Sprintf("init len=%d", len(e.conf))
@@ -484,60 +651,44 @@ func (e *exec) apply(o op) {
 			}
 		}
 	case opReload:
-		pat := make([]byte, 0, 4)
-		n := max(len(prevConf), len(e.conf))
-		for i := 0; i < n; i++ {
-			switch {
-			case i < len(prevConf) && i < len(e.conf) && prevConf[i] == e.conf[i]:
+		pat := classify(prevConf, e.conf)
+		for i, cl := range pat {
+			if prevAvail {
+				if i < len(prevConf) {
+					e.mclass = append(e.mclass, fmt.Sprintf("%c:%s", cl, destNames[prevConf[i]]))
+				} else {
+					e.mclass = append(e.mclass, fmt.Sprintf("%c:%s", cl, destNames[e.conf[i]]))
+				}
+			}
+			switch cl {
+			case clKept:
 				// unchanged destination: must keep running untouched
-				pat = append(pat, 'K')
 				if i < len(prev) && i < len(cur) {
-					if prev[i].h != cur[i].h {
-						e.fail("unchanged-replaced", "reload replaced the handler of unchanged destination %d (%s)", i, destNames[e.conf[i]])
+					if prev[i].h != cur[i].h && prevAvail {
+						e.fail("unchanged-replaced", "reload replaced the running forwarder of unchanged destination %d (%s) by a new one", i, destNames[e.conf[i]])
+					} else if prev[i].h != cur[i].h {
+						e.fail("unchanged-replaced-while-unavailable", "reload replaced the (idle) handler of unchanged destination %d (%s): new identity in the API", i, destNames[e.conf[i]])
 					} else if prev[i].done != cur[i].done {
 						e.fail("unchanged-restarted", "reload restarted the forwarder of unchanged destination %d (%s)", i, destNames[e.conf[i]])
 					} else if prev[i].phase != cur[i].phase {
 						e.fail("unchanged-touched", "reload moved unchanged destination %d from phase %c to %c", i, prev[i].phase, cur[i].phase)
 					}
 				}
-			case i < len(prevConf) && i < len(e.conf):
+			case clChanged, clShifted:
 				// changed: the old handler must have been replaced by a new one; whether a destination that
 				// merely moved to another index keeps its handler is left open by the statement (don't-care),
 				// so the only demand on the old handler is (c) above
-				moved := false
-				for _, d := range e.conf {
-					if d == prevConf[i] {
-						moved = true
-					}
-				}
-				if moved {
-					pat = append(pat, 'S')
-				} else {
-					pat = append(pat, 'C')
-				}
 				if i < len(prev) && i < len(cur) && prev[i].h == cur[i].h {
 					e.fail("changed-kept", "reload kept the handler of changed destination %d", i)
 				}
-				if i < len(prev) && !moved {
-					if p := probe(prev[i].h); p.phase == phRunning {
-						e.fail("changed-still-running", "forwarder of changed destination %d still runs after the reload returned", i)
-					}
+				if i < len(prev) && cl == clChanged && e.liveGoroutines(prev[i].h) > 0 {
+					e.fail("changed-still-running", "forwarder of changed destination %d still runs after the reload returned", i)
 				}
-			case i < len(prevConf):
-				pat = append(pat, 'R')
-				moved := false
-				for _, d := range e.conf {
-					if d == prevConf[i] {
-						moved = true
-					}
+			case clRemoved:
+				if i < len(prev) && !inListModel(e.conf, prevConf[i]) && e.liveGoroutines(prev[i].h) > 0 {
+					e.fail("removed-still-running", "forwarder of removed destination %d still runs after the reload returned", i)
 				}
-				if i < len(prev) && !moved {
-					if p := probe(prev[i].h); p.phase == phRunning {
-						e.fail("removed-still-running", "forwarder of removed destination %d still runs after the reload returned", i)
-					}
-				}
-			default:
-				pat = append(pat, 'A')
+			case clAdded:
 				if i < len(cur) {
 					for _, p := range prev {
 						if p.h == cur[i].h {
@@ -552,23 +703,24 @@ func (e *exec) apply(o op) {
 }
 
 func (e *exec) key() string {
-	started, ms := forward.VerifC39ManagerState(e.m)
 	var b strings.Builder
-	fmt.Fprintf(&b, "started=%v ever=%v |", started, ms != nil)
+	fmt.Fprintf(&b, "avail=%v ever=%v | %s |", e.available, e.everAvail, forward.VerifC39ManagerFingerprint(e.m))
 	for _, c := range e.cur {
-		d := destIndex(c.h.Conf)
-		name := "?"
-		if d >= 0 {
-			name = destNames[d]
-		}
-		fmt.Fprintf(&b, " %s:%c", name, c.phase)
+		fmt.Fprintf(&b, " %s:%c", destLabel(c.h.Conf), c.phase)
 	}
 	return b.String()
 }
 
+// teardown ends whatever still runs, through the public API only.
 func (e *exec) teardown() {
 	if e.m != nil {
-		if started, _ := forward.VerifC39ManagerState(e.m); started {
+		running := e.available
+		for _, h := range e.all {
+			if e.liveGoroutines(h) > 0 {
+				running = true
+			}
+		}
+		if running {
 			vcommon.Recover(func() { e.m.Stop() })
 		}
 	}
@@ -578,11 +730,13 @@ func (e *exec) teardown() {
 }
 
 type result struct {
-	key     string
-	viols   []viol
-	tclass  string
-	harness string
-	panicV  string
+	key       string
+	viols     []viol
+	tclass    string
+	mclass    []string
+	urlChecks int
+	harness   string
+	panicV    string
 }
 
 // run executes a history on a fresh manager; the oracle is evaluated after every operation but only
@@ -591,7 +745,7 @@ func run(h []op, strict bool) (res result) {
 	done := make(chan result, 1)
 	go func() {
 		var r result
-		e := &exec{seen: map[*forward.DestHandler]bool{}}
+		e := &exec{seen: map[*forward.DestHandler]bool{}, gens: map[*forward.DestHandler][]<-chan struct{}{}}
 		e.strms = [2]*stream.Stream{newStream(), newStream()}
 		p, stack := vcommon.Recover(func() {
 			for i, o := range h {
@@ -615,10 +769,14 @@ func run(h []op, strict bool) (res result) {
 		}
 		r.viols = e.viols
 		r.tclass = e.tclass
+		r.mclass = e.mclass
+		r.urlChecks = e.urlChecks
+		done <- r
+		// after the verdict of this execution has been handed over: a teardown that blocks in a broken
+		// implementation must not turn a violation into a watchdog expiry
 		if p == nil {
 			e.teardown()
 		}
-		done <- r
 	}()
 	select {
 	case r := <-done:
@@ -640,9 +798,23 @@ func main() {
 	t0 := time.Now()
 
 	r.Rule = fmt.Sprintf("BFS over histories Init(L)·{Toggle stream, ReloadConf(L)}* on a fresh real forward.Manager per transition, "+
-		"L over all %d lists of <=%d destinations from %v; states deduplicated by (started, ever started, per position destination+phase); "+
-		"distinct = reachable state keys plus transition classes (per-position Kept/Changed/Shifted/Removed/Added pattern x availability)",
+		"L over all %d lists of <=%d destinations from %v (URLs with $MTX_PATH, with $G1, without variables; fingerprint/token variants); "+
+		"states deduplicated by (model: available, ever available; implementation: private flags found by reflection; per position destination+phase); "+
+		"distinct = reachable state keys plus transition classes (per-position Kept/Changed/Shifted/Removed/Added pattern of the REFERENCE MODEL x availability)",
 		len(lists), *maxLen, destNames)
+
+	// pre-flight: the two indispensable observations must be possible on this tree
+	{
+		pm := &forward.Manager{PathName: pathName, Matches: pathMatches, Forward: toForward([]int{0}), Parent: newEvlog()}
+		pm.Initialize()
+		hs, ok := forward.VerifC39Handlers(pm)
+		if !ok || len(hs) != 1 {
+			vcommon.Harness("cannot observe the handler list of forward.Manager (no unambiguous field of type []*DestHandler holding %d handler after Initialize)", 1)
+		}
+		if _, ok = forward.VerifC39ProbeHandler(hs[0]); !ok {
+			vcommon.Harness("cannot observe the run goroutine of forward.DestHandler (neither a chan struct{} nor a context.Context field)")
+		}
+	}
 
 	// determinism discipline: the first non-trivial history twice
 	probeH := []op{{opInit, len(lists) - 1}, {opToggle, 0}, {opReload, 1}, {opToggle, 0}}
@@ -664,6 +836,8 @@ func main() {
 	maxDepthReached := 0
 	fix := false
 	tclasses := map[string]int{}
+	mclasses := map[string]int{} // model classification x destination, reloads while the stream is available
+	violations, urlChecks := 0, 0
 
 	type job struct {
 		hist []op
@@ -693,11 +867,17 @@ func main() {
 			replay := map[string]any{"history": histString(h), "destinations": dests}
 			if res.panicV != "" {
 				kind := []string{"init", "toggle", "reload"}[last.Kind]
+				violations++
 				r.Violation("panic-"+kind, fmt.Sprintf("history %v panics: %s", histString(h), vcommon.Short(res.panicV, 600)), replay)
 				continue
 			}
 			for _, v := range res.viols {
+				violations++
 				r.Violation(v.key, fmt.Sprintf("after %v: %s", histString(h), v.what), replay)
+			}
+			urlChecks += res.urlChecks
+			for _, mc := range res.mclass {
+				mclasses[mc]++
 			}
 			tclasses[res.tclass]++
 			r.Distinct("T " + res.tclass)
@@ -712,7 +892,7 @@ func main() {
 				if len(h) > maxDepthReached {
 					maxDepthReached = len(h)
 				}
-				if len(h) >= 4 && len(res.key) > 40 && strings.Contains(res.key, ":n") && strings.Contains(res.key, ":s") {
+				if len(h) >= 4 && strings.Contains(res.key, ":n") && strings.Contains(res.key, ":s") {
 					r.Sample(map[string]any{"history": histString(h), "state": res.key, "last_transition": res.tclass})
 				}
 			}
@@ -753,17 +933,28 @@ func main() {
 		fix = true
 	}
 
-	// non-vacuity: the collisions the statement talks about must have occurred
-	need := []string{"K", "C", "R", "A", "S"}
-	for _, n := range need {
-		found := false
-		for tc := range tclasses {
-			if strings.HasPrefix(tc, "reload avail=true ") && strings.Contains(strings.TrimPrefix(tc, "reload avail=true "), n) {
-				found = true
+	// non-vacuity: the collisions the statement talks about must have occurred. Counted on the
+	// classifications of the reference model (never on what the implementation did). A violating
+	// state is not expanded, so an implementation that violates early legitimately truncates the
+	// search: the assertion only applies to a search without violations (otherwise the violations
+	// are the verdict).
+	if violations == 0 && time.Since(t0) <= *budget {
+		for _, cl := range []byte{clKept, clChanged, clShifted, clRemoved, clAdded} {
+			n := 0
+			for mc, c := range mclasses {
+				if mc[0] == cl {
+					n += c
+				}
+			}
+			if n == 0 {
+				vcommon.Harness("vacuous: no reload with a %c position (reference model) while the stream was available", cl)
 			}
 		}
-		if !found && time.Since(t0) <= *budget {
-			vcommon.Harness("vacuous: no reload with a %s position while the stream was available", n)
+		// an unchanged destination of every kind (with $MTX_PATH, with $G1, without variables, ...)
+		for _, dn := range destNames {
+			if mclasses[fmt.Sprintf("%c:%s", clKept, dn)] == 0 {
+				vcommon.Harness("vacuous: destination %s was never an unchanged position of a reload while the stream was available", dn)
+			}
 		}
 	}
 
@@ -775,6 +966,8 @@ func main() {
 	r.Set("fixpoint_reached", fix)
 	r.Set("lists", len(lists))
 	r.Set("transition_classes", len(tclasses))
+	r.Set("model_position_classes_while_available", len(mclasses))
+	r.Set("dialled_url_checks", urlChecks)
 	r.Exhaustive = fix
 	if !fix {
 		r.Note("internal deadline or depth bound hit: histories up to length %d completed", completed)
@@ -782,10 +975,12 @@ func main() {
 	r.Assumptions = []string{
 		"Start and Stop alternate (as internal/core/path.go calls them); Stop before the first Start is outside the alphabet",
 		"operations are sequential (one goroutine drives the manager, as the path's run loop does); ReloadConf racing APIList is not explored here",
-		"'running' = the handler's run goroutine exists (done channel created and not closed), observed through the shim; every started handler is additionally required to have performed a real connection attempt (its error log event) before the state is observed",
+		"'running' = a run goroutine of the handler exists (a done channel ever observed on it that is not closed), observed through the shim by field TYPE (no private field name is relied on); every started handler is additionally required to have performed a real connection attempt (its error log event) before the state is observed",
+		"stream availability, configured list and the Kept/Changed/Shifted/Removed/Added class of every reload position come from the reference model (operations applied), never from Manager.started or other private bookkeeping; private flags only refine the state key",
+		"a handler may publish its destination URL as configured or with $MTX_PATH/$G<n> resolved (don't-care); the URL it dials (its 'forwarding to' event, when emitted) must be the resolved configured URL",
 		"a destination that only moves to another list index may keep or restart its forwarder (statement leaves it open); same index + equal configuration = unchanged",
-		"which stream a running handler reads is only checked through Manager.stream, not by receiving media (destinations are closed ports)",
-		"state key soundness: control flow of Manager/DestHandler depends only on (started, stream set, per handler Conf and ctx/done generation)",
+		"which stream a running handler reads is only checked through the *stream.Stream the manager remembers (if it has such a field), not by receiving media (destinations are closed ports)",
+		"state key soundness: control flow of Manager/DestHandler depends only on (private flags / stream set, per handler Conf and ctx/done generation)",
 	}
 	r.Finish()
 }
